@@ -7,7 +7,7 @@
    what the harness observes; the theorems below that mention it are statements about that
    description, tied to the library by observation, not by proof. *)
 From FRP Require Import Model.HttpRewrite Proofs.HttpRewriteProofs Model.HttpAdmit Proofs.HttpAdmitProofs
-  gen.GenVhostTransport.
+  gen.GenVhostTransport gen.GenRecycle.
 From Coq Require Import Permutation.
 Open Scope Z_scope.
 
@@ -208,6 +208,26 @@ Theorem C02_cap_per_route_would_queue : forall k k', k <> k' ->
   ht_run 5 [] (ht_six k ++ [HtRequest k']) = [HtDial; HtDial; HtDial; HtDial; HtDial; HtQueued; HtDial].
 Proof. exact ht_cap5_queues. Qed.
 Print Assumptions C02_cap_per_route_would_queue.
+
+(* "other requests are unaffected", tunnel option compression: the pooled snappy reader/writer of a work
+   connection are given back only after the stream they serve has ended, on every path of every function
+   that takes them from the pool (client/proxy/proxy.go HandleTCPWorkConnection incl. its plugin branch,
+   server/proxy/proxy.go handleUserTCPConnection, the stcp/xtcp visitors).  Reflective over the statement
+   shapes regenerated by translator unit t9rc on this run: a `defer recycle()` in a function that also hands
+   the stream to a plugin (which returns at once) makes [eq_refl] fail. *)
+Theorem C02_compression_resources_recycled_after_stream_end :
+  gen_recycle_sites <> [] /\
+  forall file fn evs p, In (file, fn, evs) gen_recycle_sites -> In p (rc_paths evs) ->
+                        rc_path_safe p false false = true.
+Proof. exact (rc_sites_safe_sound gen_recycle_sites (eq_refl true)). Qed.
+Print Assumptions C02_compression_resources_recycled_after_stream_end.
+
+(* non-vacuity: the shape "acquire; defer recycle; ... plugin.Handle; return" is refused, with the offending path *)
+Theorem C02_deferred_recycle_with_plugin_handoff_refused :
+  rc_site_safe [RcIf [RcAcquire; RcDefer] false; RcIf [RcAsync] true; RcIf [RcClose] true; RcJoin] = false /\
+  In [RcAcquire; RcDefer; RcAsync] (rc_paths [RcIf [RcAcquire; RcDefer] false; RcIf [RcAsync] true; RcIf [RcClose] true; RcJoin]).
+Proof. exact rc_defer_with_async_unsafe. Qed.
+Print Assumptions C02_deferred_recycle_with_plugin_handoff_refused.
 
 (* hypotheses are satisfiable / the functions compute *)
 Example C02_ex_route : hr_route :=
